@@ -521,7 +521,9 @@ func (h *harness) tableEntries() []entry {
 	for _, lv := range []string{"trace", "debug", "info", "warn", "fatal", "panic", "disabled"} {
 		single("option:log.level="+lv, true, "log.level", lv)
 	}
-	single("option:log.level=warning", false, "log.level", "warning")
+	// "warning" used to be listed by the schema only; since the schema repair (493fc61) no source documents it.
+	// The loader maps every unknown level string to info by design, so undocumented spellings are outside the
+	// property's quantifier ("all valid configurations") and are not part of the table.
 	single("option:log.format=gelf", true, "log.format", "gelf")
 	single("option:tracing.enabled", true, "tracing.enabled", false)
 	single("option:tracing.span_processor=simple", true, "tracing.span_processor", "simple")
